@@ -23,6 +23,8 @@ const Cfg cfgs[] = {
   {"map<int>/b2/nomemo/scramble/qsbr", mk<MapAd<IMap<rc::QSBR, 2, false, ScrambleHash>, int>>},
   {"map<int>/b2/memo/id/backoff_single/hp_s8_0_0",
    mk<MapAd<xenium::harris_michael_hash_map<int, int, xp::reclaimer<rc::HP_S<8, 0, 0>>, xp::buckets<2>, xp::memoize_hash<true>, xp::hash<IdHash>, xp::backoff<xenium::single_backoff>>, int>>},
+  {"map<string>/b2/nomemo/scramble/nebr1",
+   mk<MapAd<xenium::harris_michael_hash_map<std::string, int, xp::reclaimer<rc::NEBR<1>>, xp::buckets<2>, xp::memoize_hash<false>, xp::hash<StrScramble>>, std::string>>},
   {"map<int>/b3/nomemo/id/revbucket/ebr0",
    mk<MapAd<xenium::harris_michael_hash_map<int, int, xp::reclaimer<rc::EBR<0>>, xp::buckets<3>, xp::memoize_hash<false>, xp::hash<IdHash>, xp::map_to_bucket<RevBucket>>, int>>},
 };
